@@ -160,6 +160,22 @@ func ruleSetOverMultimap(c *eng.Ctx) {
 					} else {
 						why = "the seen-set is tested but not updated before the yield"
 					}
+					// the seen-set must outlive one element: it is a variable of the enclosing
+					// function, and inside the walk it is (re)allocated only while still nil
+					if _, captured := g.base.(*ssa.FreeVar); !captured && ok {
+						ok = false
+						why = "the seen-set is created inside the per-element body, so it never remembers an earlier element"
+					}
+					for _, rs := range seenSetResets(body, g.base) {
+						nilEdges := eng.NilEdges(body, func(v ssa.Value) bool {
+							ld, isLd := v.(*ssa.UnOp)
+							return isLd && sameSlot(ld.X, rs.Addr)
+						}, true)
+						if eng.FindPath(eng.Entry(body), rs, eng.NewCut().AddEdges(nilEdges...)) != nil && ok {
+							ok = false
+							why = "the seen-set is re-allocated during the walk (at " + c.P.Pos(rs.Pos()) + ") on a path where it may already hold marks, so earlier elements are forgotten"
+						}
+					}
 				}
 				c.Check(ok, rule, key, call.Pos(), "in %s the yield inside the walk over the per-entry index iterator is guarded by a first-occurrence test against a local seen-set that is updated before yielding%s",
 					c.P.FnName(body), ifs(ok, "", ": "+why+" — a blob stored in several packs is reported several times (Len() > number of members)"))
